@@ -552,7 +552,7 @@ SPECS["C14"] = {
 
 # flipped by the lead once the generated client stubs return an error instead of `unreachable!()`
 # for a response of another method's variant (until then that case class panics on the real code)
-C16_WRONG_VARIANT = False
+C16_WRONG_VARIANT = True
 
 SPECS["C16"] = {
     "pid": "C16",
